@@ -137,66 +137,76 @@ def cache_job(fields, name="cache", extra=None, quick_ops=200, quick_lives=20, t
             "seeds": seeds or {"quick": 2, "thorough": 42}, "timeout": 3000}
 
 
+def acache_job(fields, extra=None, quick_lives=12, seeds=None):
+    """stepped traces of AsyncCache (tokio current-thread runtime; same protocol, driver and model as `cache`)"""
+    extra = extra or []
+    return {"name": "acache", "driver": "cache", "fields": fields,
+            "gen": lambda tier, seed: ["acache", "--seed", str(seed), "--ops", "200" if tier == "quick" else "400",
+                                       "--lives", str(quick_lives if tier == "quick" else 60)] + extra,
+            "seeds": seeds or {"quick": 1, "thorough": 20}, "timeout": 3000}
+
+
 CACHE_ASSUME = [
     "granularity: one client call (or one half of a blocking call) and one iteration of the processor loop are atomic steps; interleavings inside a call (between its store step and its buffer send) are explored by the stepped harness only where yield points exist",
     "popularity estimates and HashMap iteration orders are oracle inputs observed from the implementation; the estimator itself is the subject of C13",
     "the stepped harness parks the two workers and drives ParkedProcessor::step, which mirrors the arms of the worker loop; the real loop is exercised by the live-mode jobs",
+    "AsyncCache runs its real worker loops on a tokio current-thread runtime (acache job): between two yields of the client nothing is observable, so a.drain / a.wait / a.clear / a.close are replayed through the model as a whole and compared at their end; per-item observations (item descriptions, intermediate snapshots) exist for Cache only",
 ]
 
 PROPS = {
     "C03": {
         "module": "StrettoModel.Props.C03",
-        "oracles": [{"name": "flavour-differential", "run": flavour_oracle_for("C03")}],
-            "jobs": [cache_job(r"\.(store|expiry|ret|callbacks|len)$", extra=["--w-ttl", "70"])],
+        "oracles": [{"name": "live-sweep-race", "run": live_oracle("C03", ["async_sweep_race"])}, {"name": "flavour-differential", "run": flavour_oracle_for("C03")}],
+            "jobs": [acache_job(r"\.(store|expiry|ret|callbacks|len)$", extra=["--w-ttl", "60"]), cache_job(r"\.(store|expiry|ret|callbacks|len)$", extra=["--w-ttl", "70"])],
         "branches": ["get.hit", "get.expired", "get.miss", "getttl.remaining", "getttl.max", "getttl.none", "insert.ttl", "insert.update",
                      "tick.reclaimed", "tick.recheck_skipped", "getmut.hit", "getmut.expired", "getttl.expired", "iip.expired"],
         "assumptions": CACHE_ASSUME + ["the clock is monotone (virtual clock hook in ttl.rs); time is nanoseconds, so every placement relative to second boundaries is a value of `now`"],
     },
     "C05": {
         "module": "StrettoModel.Props.C05",
-        "oracles": [{"name": "flavour-differential", "run": flavour_oracle_for("C05")}],
-            "jobs": [cache_job(r"\.(store|expiry|policy|callbacks|len)$", extra=["--w-ttl", "80"])],
+        "oracles": [{"name": "live-sweep", "run": live_oracle("C05", ["async_sweep_race", "async_sweep_under_traffic"])}, {"name": "flavour-differential", "run": flavour_oracle_for("C05")}],
+            "jobs": [acache_job(r"\.(store|expiry|policy|callbacks|len)$", extra=["--w-ttl", "60"]), cache_job(r"\.(store|expiry|policy|callbacks|len)$", extra=["--w-ttl", "80"])],
         "branches": ["tick.reclaimed", "tick.recheck_skipped", "tick.idle", "insert.ttl", "insert.update", "remove.resident"],
         "assumptions": CACHE_ASSUME + ["the tick period (crossbeam tick / async-io Timer) is environment: ticks are placed by the schedule, with a virtual nanosecond clock",
                                        "guards of the completeness theorems, checked at run time by the driver on every tick of the implementation: the visited keys are a permutation of the keys of the due buckets, and the conflict hashes filed there pass the store's check (TickOk)"],
     },
-    "C02": {"module": "StrettoModel.Props.C02", "jobs": [cache_job(r"\.(store|ret|callbacks|buffer|clear)$", extra=["--collisions", "1", "--w-clear", "5"])],
+    "C02": {"module": "StrettoModel.Props.C02", "jobs": [acache_job(r"\.(store|ret|callbacks|buffer|clear)$", extra=["--collisions", "1"]), cache_job(r"\.(store|ret|callbacks|buffer|clear)$", extra=["--collisions", "1", "--w-clear", "5"])],
             "branches": ["get.hit", "get.miss", "get.conflict_miss", "getmut.hit", "insert.update", "insert.new_over_resident", "remove.resident", "p.clear.buf1", "delete.other_conflict"],
             "oracles": [{"name": "flavour-differential", "run": flavour_oracle_for("C02")}, {"name": "live-remove-full", "run": live_oracle("C02", ["remove_full", "async_remove_full", "invariants", "async_invariants"])}],
             "assumptions": CACHE_ASSUME + ["values are opaque ids: the model carries a value id where the code carries a V; that the code hands back the V it stored under that id (no aliasing inside a shard's HashMap) is std's contract and is sampled by the correspondence (every returned value is compared)",
                                            "concurrent lookups during an in-place update are serialised by the shard lock; that atomicity (never a mixture of two values) is the RwLock's contract, not a theorem here"]},
     "C04": {"module": "StrettoModel.Props.C04", "oracles": [{"name": "flavour-differential", "run": flavour_oracle_for("C04")}],
-            "jobs": [cache_job(r"\.(store|expiry|policy|ret|callbacks|buffer|len)$", extra=["--w-ttl", "50"])],
+            "jobs": [acache_job(r"\.(store|expiry|policy|ret|callbacks|buffer|len)$", extra=["--w-ttl", "60"]), cache_job(r"\.(store|expiry|policy|ret|callbacks|buffer|len)$", extra=["--w-ttl", "50"])],
             "branches": ["padd.room", "padd.evicting", "padd.rejected", "insert.update", "insert.dropped", "remove.resident", "tick.reclaimed", "tick.idle"],
             "assumptions": CACHE_ASSUME + ["refines_ttl_map composes the per-operation squares over sequential histories (each operation taken to quiescence); for histories with several client calls in flight the composition is carried by the run-time no-loss monitor, which tracks capacity pressure (latest asked cost per charged key at quiescence, per-key peak while writes are in flight) and collisions from the implementation's own history",
                                            "guards of the tick square (visited keys cover the due buckets; TickOk) are checked at run time by the driver"]},
     "C06": {"module": "StrettoModel.Props.C06",
-            "jobs": [cache_job(r"\.(store|policy|callbacks|len|buffer)$", extra=["--collisions", "1"], quick_lives=14),
+            "jobs": [acache_job(r"\.(store|policy|callbacks|len|buffer)$"), cache_job(r"\.(store|policy|callbacks|len|buffer)$", extra=["--collisions", "1"], quick_lives=14),
                      cache_job(r"\.(store|policy|callbacks|len|buffer)$", name="cache-plain", quick_lives=14)],
             "branches": ["padd.evicting", "padd.rejected", "padd.already_charged", "delete.resident", "delete.other_conflict", "delete.absent",
                          "tick.reclaimed", "p.clear.buf1", "remove.resident", "remove.buffer_full", "insert.split"],
             "oracles": [{"name": "flavour-differential", "run": flavour_oracle_for("C06")}, {"name": "live-remove-full", "run": live_oracle("C06", ["remove_full", "async_remove_full", "invariants", "async_invariants"])}],
             "assumptions": CACHE_ASSUME + ["guards of the theorem checked at run time on the implementation's observations: VictimsOk (no sampled victim is the incoming key) and TickOk (conflict hashes filed in due buckets pass the store's check)"]},
     "C08": {"module": "StrettoModel.Props.C08",
-            "jobs": [cache_job(r"\.(store|callbacks|buffer|ret)$", extra=["--collisions", "1"]), cache_job(r"\.(store|callbacks|buffer|ret)$", name="cache-plain", extra=["--w-clear", "5"])],
+            "jobs": [acache_job(r"\.(store|callbacks|buffer|ret)$"), cache_job(r"\.(store|callbacks|buffer|ret)$", extra=["--collisions", "1"]), cache_job(r"\.(store|callbacks|buffer|ret)$", name="cache-plain", extra=["--w-clear", "5"])],
             "branches": ["insert.update", "insert.new", "insert.new_over_resident", "remove.resident", "delete.resident", "padd.evicting", "padd.rejected", "padd.already_charged",
                          "tick.reclaimed", "p.clear.buf1", "p.stop", "getmut.hit"],
             "oracles": [{"name": "flavour-differential", "run": flavour_oracle_for("C08")}, {"name": "live-invariants", "run": live_oracle("C08", ["invariants", "async_invariants"])}],
             "assumptions": CACHE_ASSUME + ["values are opaque ids; each write hands the cache a value id that occurs nowhere in it (a Rust value is moved in: a distinct object) — hypothesis `Fresh` of the run theorems; the harness numbers its values consecutively",
                                            "the run theorems assume C06's guards on oracle inputs (VictimsOk, TickOk), checked at run time by the driver on the implementation's observations",
                                            "the callback log of the model is the sequence of CacheCallback calls the recording callback of the harness saw; it is compared step by step"]},
-    "C10": {"module": "StrettoModel.Props.C10", "jobs": [cache_job(r"\.(buffer|ret|wait|clear|close|closed)$", extra=["--w-wait", "10", "--w-close", "3", "--w-clear", "5"])],
+    "C10": {"module": "StrettoModel.Props.C10", "jobs": [acache_job(r"\.(buffer|ret|wait|clear|close|closed)$"), cache_job(r"\.(buffer|ret|wait|clear|close|closed)$", extra=["--w-wait", "10", "--w-close", "3", "--w-clear", "5"])],
             "oracles": [{"name": "flavour-differential", "run": flavour_oracle_for("C10")}, {"name": "live-barrier", "run": live_oracle("C10", ["barrier", "protocol_storm", "async_barrier", "async_protocol_storm", "remove_full", "async_remove_full"])}], "assumptions": CACHE_ASSUME},
-    "C15": {"module": "StrettoModel.Props.C15", "oracles": [{"name": "flavour-differential", "run": flavour_oracle_for("C15")}],
-            "jobs": [cache_job(r"\.(ring|metrics|ret|batch)$")],
+    "C15": {"module": "StrettoModel.Props.C15", "oracles": [{"name": "live-ring", "run": live_oracle("C15", ["async_ring_accounting"])}, {"name": "flavour-differential", "run": flavour_oracle_for("C15")}],
+            "jobs": [acache_job(r"\.(ring|metrics|ret|batch)$"), cache_job(r"\.(ring|metrics|ret|batch)$")],
             "branches": ["ring.flush.kept", "ring.flush.dropped_or_closed", "w.items", "get.hit", "get.miss", "getmut.hit"],
             "assumptions": CACHE_ASSUME + ["what the policy worker does with a kept batch is TinyLFU.increments, the subject of C13; the stepped harness parks the worker so the bounded queue does fill up"]},
-    "C19": {"module": "StrettoModel.Props.C19", "jobs": [cache_job(r".*", quick_lives=8)],
+    "C19": {"module": "StrettoModel.Props.C19", "jobs": [acache_job(r".*"), cache_job(r".*", quick_lives=8)],
             "oracles": [{"name": "flavour-differential", "run": flavour_oracle},
-                        {"name": "live-async", "run": live_oracle("C19", ["async_barrier", "async_remove_full", "async_invariants", "async_protocol_storm"])}],
-            "assumptions": CACHE_ASSUME + ["AsyncCache is tied to the model only through Cache: the same scripted histories (quiescence after every operation, virtual clock, equal sketch seeds) are run against both and every observable compared; executors sampled: thread-per-task, tokio multi-thread, tokio current-thread",
+                        {"name": "live-async", "run": live_oracle("C19", ["async_barrier", "async_remove_full", "async_invariants", "async_protocol_storm", "async_clear_burst", "async_ring_accounting", "async_sweep_race", "async_sweep_under_traffic"])}],
+            "assumptions": CACHE_ASSUME + ["AsyncCache is tied to the model by its own stepped traces (acache job: tokio current-thread runtime, composite steps a.drain / a.wait / a.clear / a.close whose unobserved sub-steps are replayed muted) and through Cache: the same scripted histories (quiescence after every operation, virtual clock, equal sketch seeds) are run against both and every observable compared; executors sampled: thread-per-task, tokio multi-thread, tokio current-thread",
                                            "the gets_kept / gets_dropped split and the queue length legitimately differ (bounded 3 vs unbounded) and are masked; their sum is compared"]},
-    "C17": {"module": "StrettoModel.Props.C17", "jobs": [cache_job(r"\.(metrics|life|policy|ret)$", extra=["--w-clear", "4"]), policy_job(r"^pol\..*(metrics|state)$"),
+    "C17": {"module": "StrettoModel.Props.C17", "jobs": [acache_job(r"\.(metrics|life|policy|ret)$"), cache_job(r"\.(metrics|life|policy|ret)$", extra=["--w-clear", "4"]), policy_job(r"^pol\..*(metrics|state)$"),
                      {"name": "hist", "driver": "hist", "fields": r".*",
                       "gen": lambda tier, seed: ["hist", "--seed", str(seed), "--ops", "200" if tier == "quick" else "600", "--lives", "30" if tier == "quick" else "120"],
                       "seeds": {"quick": 1, "thorough": 6}}],
@@ -206,33 +216,33 @@ PROPS = {
                                            "ratio() is f64 arithmetic on hits and misses and is compared on the implementation's own output, not proved; in the modelled code no admission is ever tracked (F14), so the cache never feeds the life-expectancy histogram: the histogram type itself (Histogram::new/update/clear/mean/percentile/Display, integer-valued bounds) is modelled, proved (count = sum of buckets, bucket of a sample) and tied by its own trace job through the public API",
                                            "Histogram::clone shares the bucket vector with the original while copying count (a snapshot returned by life_expectancy_seconds() can therefore disagree with its own buckets after a later update of the live histogram); unreachable through the cache because of F14; recorded as observation O6"]},
     "C18": {"module": "StrettoModel.Props.C18",
-            "jobs": [cache_job(r"\.(store|ret|callbacks)$", extra=["--collisions", "1"], quick_lives=14),
+            "jobs": [acache_job(r"\.(store|ret|callbacks)$", extra=["--collisions", "1"]), cache_job(r"\.(store|ret|callbacks)$", extra=["--collisions", "1"], quick_lives=14),
                      {"name": "keys", "driver": "keys", "gen": lambda tier, seed: ["keys", "--seed", str(seed), "--ops", "300" if tier == "quick" else "5000"],
                       "seeds": {"quick": 1, "thorough": 4}}],
             "branches": ["key.i8.neg", "key.i16.neg", "key.i64.neg", "key.u64.nonneg", "keystr", "delete.other_conflict", "get.conflict_miss", "iip.vetoed_or_conflict"],
             "assumptions": CACHE_ASSUME + ["seahash/xxh64 and std's Hash for String/&str are not modelled: determinism and String/&str agreement are sampled by the harness"]},
     "C20": {"module": "StrettoModel.Props.C20",
-            "jobs": [cache_job(r".*", name="config-sweep", extra=["--sweep", "1"], quick_ops=60, quick_lives=70, thorough_ops=150, thorough_lives=140, seeds={"quick": 1, "thorough": 8}),
+            "jobs": [acache_job(r".*"), cache_job(r".*", name="config-sweep", extra=["--sweep", "1"], quick_ops=60, quick_lives=70, thorough_ops=150, thorough_lives=140, seeds={"quick": 1, "thorough": 8}),
                      cache_job(r".*", quick_lives=10)],
             "branches": ["finalize.ok", "finalize.InvalidNumCounters", "finalize.InvalidMaxCost", "finalize.InvalidBufferSize", "padd.evicting", "tick.reclaimed", "ring.flush.kept"],
             "oracles": [{"name": "live-completion", "run": live_oracle("C20", ["ttl_mix", "protocol_storm"])}], "assumptions": CACHE_ASSUME},
     "C09": {
         "module": "StrettoModel.Props.C09",
         "oracles": [{"name": "flavour-differential", "run": flavour_oracle_for("C09")}],
-            "jobs": [cache_job(r"\.(store|expiry|ret|callbacks|buffer)$", extra=["--w-ttl", "50"])],
+            "jobs": [acache_job(r"\.(store|expiry|ret|callbacks|buffer)$", extra=["--w-ttl", "60"]), cache_job(r"\.(store|expiry|ret|callbacks|buffer)$", extra=["--w-ttl", "50"])],
         "branches": ["iip.absent", "iip.expired", "iip.update", "iip.vetoed_or_conflict", "insert.update", "insert.new_over_resident"],
         "assumptions": CACHE_ASSUME + ["validators are table-driven (always, never, new>old, same parity); the theorems quantify over every predicate"],
     },
     "C11": {
         "module": "StrettoModel.Props.C11",
-        "oracles": [{"name": "flavour-differential", "run": flavour_oracle_for("C11")}],
-            "jobs": [cache_job(r"\.(store|expiry|policy|buffer|metrics|ret|callbacks|len|clear)$", extra=["--w-clear", "8", "--w-ttl", "40"])],
+        "oracles": [{"name": "live-clear-burst", "run": live_oracle("C11", ["clear_burst", "async_clear_burst"])}, {"name": "flavour-differential", "run": flavour_oracle_for("C11")}],
+            "jobs": [acache_job(r"\.(store|expiry|policy|buffer|metrics|ret|callbacks|len|clear)$"), cache_job(r"\.(store|expiry|policy|buffer|metrics|ret|callbacks|len|clear)$", extra=["--w-clear", "8", "--w-ttl", "40"])],
         "branches": ["clear.blocked.buf0", "clear.blocked.buf1", "clear.blocked.buf2", "p.clear.buf0", "p.clear.buf1", "p.clear.buf2", "ret.clear"],
         "assumptions": CACHE_ASSUME,
     },
     "C12": {
         "module": "StrettoModel.Props.C12",
-        "jobs": [cache_job(r"\.(closed|ret|buffer|store|policy|close|wait|clear)$", extra=["--w-close", "4", "--w-wait", "5"], quick_lives=30)],
+        "jobs": [acache_job(r"\.(closed|ret|buffer|store|policy|close|wait|clear)$"), cache_job(r"\.(closed|ret|buffer|store|policy|close|wait|clear)$", extra=["--w-close", "4", "--w-wait", "5"], quick_lives=30)],
         "oracles": [{"name": "flavour-differential", "run": flavour_oracle_for("C12")}, {"name": "live-close", "run": live_oracle("C12", ["close_race", "workers_exit", "protocol_storm", "async_protocol_storm"])}],
         "branches": ["close.blocked", "close.ok", "p.stop", "w.stop", "ret.close", "insert.closed", "get.closed", "remove.closed", "wait.ok", "clear.ok.buf0"],
         "assumptions": CACHE_ASSUME + ["that the OS threads of the workers are gone after close()/drop is observed by the live-mode job, not proved"],
@@ -240,7 +250,7 @@ PROPS = {
     "C16": {
         "module": "StrettoModel.Props.C16",
         "oracles": [{"name": "flavour-differential", "run": flavour_oracle_for("C16")}],
-            "jobs": [cache_job(r"\.(policy|callbacks|store)$")],
+            "jobs": [acache_job(r"\.(policy|callbacks|store)$"), cache_job(r"\.(policy|callbacks|store)$")],
         "branches": ["padd.room", "padd.evicting", "padd.rejected", "padd.oversize", "padd.already_charged", "p.item.update", "tick.reclaimed"],
         "assumptions": CACHE_ASSUME + ["Dom: cost + item_size does not overflow i64",
                                        "guard of admission_victim_reports_charge, checked by the driver on every observed iteration of the eviction loop: the entries appended to the sample are a valid fill_sample result for the current bookkeeping (RefillsOk = Lfu.validRefill at each iteration)"],
